@@ -567,7 +567,7 @@ pub fn run(e: &dyn Engine, o: &Opts) -> Report {
             report.distinct_nontrivial += 1;
         }
         for (p, w) in &out.monitor {
-            if report.monitor_hits.len() < 20 {
+            if report.monitor_hits.iter().filter(|h| &h.property == p).count() < 8 {
                 report.monitor_hits.push(MonitorHit {
                     origin: origin.clone(),
                     lines: shown_lines.clone(),
